@@ -231,6 +231,15 @@ def layer3_fields(args):
                     viols.append(v)
                 if len(viols) > 40:
                     return dict(layer=3, n=n, viols=viols[:30], nviols=len(viols))
+    # messages that contain the same entry twice (A, B, A / A, A): every entry must survive, in order
+    for a, b in itertools.product(range(0, len(pool), 3), repeat=2):
+        ea = hdr.SOMEIPSDEntry(sd_type=T.OfferService, service_id=1, instance_id=2, major_version=3, ttl=2,
+                               minver_or_counter=5, options_1=(pool[a],))
+        eb = dataclasses.replace(ea, ttl=1, options_2=(pool[b],))
+        for ents in ([ea, eb, ea], [ea, ea], [eb, ea, eb, ea]):
+            n += 1
+            for v in check_message(ents, FLAGS[n % len(FLAGS)], dict(layer=3, repeated_entries=len(ents), option_kinds=(a, b))):
+                viols.append(v)
     # every option kind alone and in pairs in both runs
     for a, b in itertools.product(range(len(pool)), repeat=2):
         e = hdr.SOMEIPSDEntry(sd_type=T.OfferService, service_id=1, instance_id=2, major_version=3, ttl=4,
